@@ -197,7 +197,7 @@ func (in *Interp) concretize(t *smt.Term, what string) *big.Int {
 	p := in.path
 	for n := 0; ; n++ {
 		if n > in.P.MaxConcretize {
-			panic(unsupported{"too many feasible values while concretising " + what})
+			panic(unsupported{fmt.Sprintf("too many feasible values while concretising %s (term sort %v, prefix %d, pos %d, trace %s)", what, t.Sort, len(p.prefix), p.pos, traceString(p.trace))})
 		}
 		var v *smt.Term
 		if p.pos < len(p.prefix) {
@@ -528,7 +528,7 @@ func (e *Explorer) worker() {
 		e.cond.Broadcast()
 		return
 	}
-	defer sess.Close()
+	defer func() { sess.Close() }()
 	if d := os.Getenv("BHS_SMTLOG"); d != "" {
 		f, _ := os.Create(fmt.Sprintf("%s/worker-%p.smt2", d, sess))
 		if f != nil {
@@ -543,7 +543,17 @@ func (e *Explorer) worker() {
 			return
 		}
 		// a fresh context per path keeps memory bounded and ids deterministic
-		if !first {
+		if sess.Dead {
+			sess.Close()
+			ctx = smt.NewCtx()
+			ns, err := smt.NewSession(ctx, e.P.Solver, e.P.TimeoutMs)
+			if err != nil {
+				e.done()
+				return
+			}
+			ns.Log = sess.Log
+			sess = ns
+		} else if !first {
 			ctx = smt.NewCtx()
 			sess.C = ctx
 			sess.Reset()
